@@ -8,6 +8,13 @@ from inside callbacks (behaviour tables) including of the running watch, the nex
 previous one of the same batch, signals raised before an iteration / inside the wait / from a
 callback, descriptors ready together with due timers and pending signals, callbacks that set errno.
 
+About a fifth of the histories use several toplevel instances (`inst i` / `use i`): watches, iterations
+and destruction on each, instances destroyed and rebuilt in any order.  evloop-default.c keeps ONE signal
+observer and a process-wide signal mask per process (its own TODO), so such histories stay inside what it
+supports: user signal watches and process watches only on the instance that is the signal observer (the first
+one built while there is none), no signal raised from a callback, and every raise is followed at once by an
+iteration of the observer with no descriptor ready.  What happens outside that is probed by corpus/C18/multi_*.ops.
+
 --tier exhaustive enumerates every history of a small scope (see `exhaustive()`).
 Prints one JSON line with the distribution actually produced.
 """
@@ -44,11 +51,23 @@ class Hist:
         self.watched_sigs = set()
         self.io_fds = set()
         self.depth_budget = 6    # watches registered from inside behaviours
+        # several toplevel instances
+        self.multi = False
+        self.cur = 0             # instance operated on
+        self.alive = {0}
+        self.observer = 0        # the instance evloop_init made the signal observer (None: nobody)
+        self.inst_of = {}        # slot -> instance
+        self.ready_set = set()   # descriptors with a non-zero readiness script
+
+    def restricted(self):
+        """is the current instance one that must not watch signals / processes (not the observer)?"""
+        return self.multi and self.cur != self.observer
 
     def slot(self, kind):
         k = self.next_slot
         self.next_slot += 1
         self.reg[k] = kind
+        self.inst_of[k] = self.cur
         return k
 
     # ---- deadlines
@@ -96,7 +115,7 @@ class Hist:
                 e = rng.choice([5, 11, 4, 0, 2])
                 stats["act_errno"] += 1
                 acts.append(f"E,{e}")
-            elif c < 0.90 and self.watched_sigs:
+            elif c < 0.90 and self.watched_sigs and not self.multi:
                 s = rng.choice(sorted(self.watched_sigs))
                 stats["act_raise"] += 1
                 acts.append(f"R,{s}")
@@ -113,7 +132,7 @@ class Hist:
 
     def gen_cancel_action(self, owner, kind):
         c = rng.random()
-        cands = [k for k in self.reg if k != owner]
+        cands = [k for k in self.reg if k != owner and self.inst_of[k] == self.inst_of[owner]]
         if c < 0.15 and kind in ("io", "signal"):
             stats["cancel_self_persistent"] += 1
             return f"C,{owner}"
@@ -132,6 +151,8 @@ class Hist:
     def gen_reg_action(self, depth, behs):
         kinds = ["timer", "timer", "later", "later", "io", "signal", "process"] if self.focus == "C17" else \
                 ["timer", "later", "io", "io", "signal", "signal", "process"]
+        if self.restricted():
+            kinds = [x for x in kinds if x not in ("signal", "process")]
         kind = rng.choice(kinds)
         k = self.slot(kind)
         f = self.flags()
@@ -165,6 +186,8 @@ class Hist:
         if kind is None:
             kinds = ["timer", "timer", "timer", "later", "later", "io", "signal", "process"] if self.focus == "C17" else \
                     ["timer", "later", "io", "io", "signal", "signal", "signal", "process"]
+            if self.restricted():
+                kinds = [x for x in kinds if x not in ("signal", "process")]
             kind = rng.choice(kinds)
         k = self.slot(kind)
         f = self.flags()
@@ -210,12 +233,13 @@ class Hist:
         if c < t[0]:
             self.reg_top()
         elif c < t[1]:
-            if self.top_live and rng.random() < 0.85:
-                k = rng.choice(self.top_live)
+            mine = [k for k in self.top_live if self.inst_of[k] == self.cur]
+            if mine and rng.random() < 0.85:
+                k = rng.choice(mine)
                 self.top_live.remove(k)
                 stats["cancel_top_live"] += 1
-            elif self.reg:
-                k = rng.choice(list(self.reg))
+            elif [k for k in self.reg if self.inst_of[k] == self.cur]:
+                k = rng.choice([k for k in self.reg if self.inst_of[k] == self.cur])
                 stats["cancel_top_any"] += 1
             else:
                 k = 90
@@ -229,9 +253,12 @@ class Hist:
             fd = rng.choice(sorted(self.io_fds)) if self.io_fds and rng.random() < 0.8 else rng.choice(FDS)
             bits = rng.choice([1, 1, 1, 4, 5, 16, 8, 32, 0, 0, 17])
             self.ops.append(f"ready {fd} {bits}")
+            (self.ready_set.add if bits else self.ready_set.discard)(fd)
             stats["ready"] += 1
         elif c < t[4]:
-            if self.watched_sigs:
+            if self.multi:
+                self.raise_group()
+            elif self.watched_sigs:
                 s = rng.choice(sorted(self.watched_sigs))
                 if rng.random() < 0.5:
                     self.ops.append(f"raise {s}"); stats["raise_pre"] += 1
@@ -244,7 +271,10 @@ class Hist:
                 self.reg_top("signal")
         elif c < t[5]:
             self.ops.append(f"exit {rng.choice(PIDS)} {rng.choice([0, 256, 9])}")
-            if rng.random() < 0.8:
+            if self.multi:
+                if not self.restricted() and rng.random() < 0.8:
+                    self.raise_group(17)
+            elif rng.random() < 0.8:
                 self.ops.append("raise 17")
             stats["exit"] += 1
         elif c < t[6]:
@@ -261,8 +291,102 @@ class Hist:
             self.ops.append("destroy"); stats["destroy"] += 1
         self.ops.append("end")
 
+    # ---- several toplevel instances
+    def raise_group(self, sig=None):
+        """a signal for the observer, delivered at once: nothing ready, raise (now or inside the wait), one iteration"""
+        if self.restricted() or (sig is None and not self.watched_sigs):
+            return
+        for fd in sorted(self.ready_set):
+            self.ops.append(f"ready {fd} 0")
+        self.ready_set.clear()
+        s = sig if sig is not None else rng.choice(sorted(self.watched_sigs))
+        if rng.random() < 0.5:
+            self.ops.append(f"raise {s}"); stats["multi_raise_pre"] += 1
+        else:
+            self.ops.append(f"inpoll {s}"); stats["multi_raise_inpoll"] += 1
+        self.ops.append(rng.choice(["tick", "tick", "tickhang"]))
+
+    def switch(self, i):
+        if i == self.cur and i in self.alive:
+            return
+        if i in self.alive:
+            self.ops.append(f"use {i}" if rng.random() < 0.8 else f"inst {i}")
+        else:
+            self.ops.append(f"inst {i}")
+            self.alive.add(i)
+            stats["multi_build"] += 1
+            if self.observer is None:
+                self.observer = i
+                stats["multi_new_observer"] += 1
+        self.cur = i
+
+    def destroy_cur(self):
+        self.ops.append("destroy")
+        stats["multi_destroy_observer" if self.cur == self.observer else "multi_destroy_other"] += 1
+        self.alive.discard(self.cur)
+        if self.observer == self.cur:
+            self.observer = None
+            self.watched_sigs = set()
+        self.top_live = [k for k in self.top_live if self.inst_of[k] != self.cur]
+        self.persistent = [k for k in self.persistent if self.inst_of[k] != self.cur]
+
+    def finish_multi(self):
+        order = sorted(self.alive)
+        rng.shuffle(order)
+        for i in order:
+            self.switch(i)
+            self.ops.append("tick"); stats["tick"] += 1
+            if rng.random() < 0.8:
+                self.destroy_cur()
+        self.ops.append("end")
+
+
+def multi_history(focus):
+    """several toplevel instances: segments of operations on one instance at a time"""
+    h = Hist(focus)
+    h.multi = True
+    for _ in range(rng.choice([1, 2, 2, 3])):
+        h.reg_top()
+    if rng.random() < 0.7:
+        h.reg_top("signal")
+    nseg = rng.choice([2, 3, 3, 4, 5])
+    for _ in range(nseg):
+        if len(h.ops) > 40:
+            break
+        c = rng.random()
+        if c < 0.55 or not h.alive:
+            # an instance other than the observer (built now when it does not exist)
+            others = [i for i in range(3) if i != h.observer]
+            h.switch(rng.choice(others) if h.observer is not None and h.observer in h.alive else rng.choice(range(3)))
+        elif h.observer is not None and h.observer in h.alive:
+            h.switch(h.observer)
+        else:
+            h.switch(rng.choice(range(3)))
+        if not [k for k in h.top_live if h.inst_of[k] == h.cur]:
+            h.reg_top()
+        for _ in range(rng.randint(1, 6)):
+            h.step()
+        if h.cur != h.observer and rng.random() < 0.5:
+            h.ops.append("tick"); stats["tick"] += 1
+            h.destroy_cur()
+        elif h.cur == h.observer and rng.random() < 0.15:
+            h.destroy_cur()
+        elif h.cur == h.observer and h.watched_sigs and rng.random() < 0.6:
+            h.raise_group()
+    # back to the observer: a signal must still reach it whatever happened to the other instances
+    if h.observer is not None and h.observer in h.alive and h.watched_sigs:
+        h.switch(h.observer)
+        h.raise_group()
+    h.finish_multi()
+    stats["histories"] += 1
+    stats["histories_multi"] += 1
+    stats["ops_len_%02d" % (len(h.ops) // 10 * 10)] += 1
+    return h.ops
+
 
 def random_history(focus):
+    if rng.random() < 0.2:
+        return multi_history(focus)
     h = Hist(focus)
     for _ in range(rng.choice([1, 2, 2, 3, 4])):
         h.reg_top()
@@ -355,6 +479,78 @@ def exhaustive(prop):
             if shape == "stop2sig" and sig != "none": ops.append("raise 10")
             ops += ["tick", "ready 100 0", "tick", "tick", "destroy", "end"]
             out.append(ops)
+    return out + exhaustive_multi(prop)
+
+
+def exhaustive_multi(prop):
+    """Several toplevel instances, small scope (inside what the default loop supports: signals on the observer only).
+
+    C18: the observer O (instance 0, or a later instance after 0 was destroyed) has one or two signal watchers;
+         a second instance is {never built, built before the watch, built after the watch} and then
+         {left alone, given a due timer and an iteration, destroyed, destroyed and rebuilt};
+         the signal arrives {before the observer's iteration, inside its wait} x {a timer of the observer due or not};
+         then two iterations of the observer, everything destroyed in either order.
+    C17: two instances with a timer / deferred callback / io watch each (all flag combinations asking for notifications),
+         one iteration each, destroyed in either order: every instance's remaining watches are notified by its own
+         destruction only.
+    """
+    out = []
+    if prop == "C18":
+        for obs, second, what, sig, timer, two in itertools.product(
+                ("first", "rebuilt", "third"), ("none", "before", "after"), ("alone", "tick", "destroy", "rebuild"),
+                ("pre", "in"), (0, 1), (0, 1)):
+            if second == "none" and what != "alone":
+                continue
+            ops = ["new " + prop]
+            o = 0
+            if obs == "rebuilt":
+                ops += ["destroy", "inst 0"]                   # a fresh instance 0 becomes the observer again
+            elif obs == "third":
+                ops += ["inst 1", "use 0", "destroy", "inst 2"]  # 1 lives on and never observes; 2 takes over
+                o = 2
+            other = 1 if obs != "third" else 0
+            if obs == "third" and second != "none":
+                # the second instance of this scenario is number 0, built anew
+                pass
+            def build_second():
+                r = [f"inst {other}"]
+                if what == "tick":
+                    r += ["timer 20 0 6", "tick"]
+                elif what == "destroy":
+                    r += ["later 20 4", "tick", "destroy"]
+                elif what == "rebuild":
+                    r += ["destroy", f"inst {other}", "io 20 101 1 6"]
+                return r + [f"use {o}"]
+            if second == "before":
+                ops += build_second()
+            ops.append("signal 3 23 2")
+            if two:
+                ops.append("signal 4 23 6")
+            if second == "after":
+                ops += build_second()
+            if timer:
+                ops.append("timer 0 0 0")
+            ops.append("raise 23" if sig == "pre" else "inpoll 23")
+            ops += ["tick", "tick"]
+            alive = [o]
+            if second != "none" and what != "destroy":
+                alive.append(other)
+            if obs == "third":
+                if 1 not in alive: alive.append(1)
+            for i in (alive if timer else alive[::-1]):
+                ops += [f"use {i}", "destroy"]
+            ops.append("end")
+            out.append(ops)
+    else:
+        KINDS = {"timer": lambda k, f: f"timer {k} 5 {f}", "due": lambda k, f: f"timer {k} 0 {f}",
+                 "later": lambda k, f: f"later {k} {f}", "io": lambda k, f: f"io {k} 100 1 {f}"}
+        for k0, k1, f0, f1, order in itertools.product(KINDS, KINDS, (0, 2, 4, 6), (4, 6), (0, 1)):
+            ops = ["new " + prop, KINDS[k0](0, f0), KINDS["timer"](1, f1), "inst 1", KINDS[k1](2, f1), KINDS["later"](3, f0),
+                   "later 4 0", "tick", "use 0", "tick"]
+            for i in ((0, 1) if order else (1, 0)):
+                ops += [f"use {i}", "destroy"]
+            ops.append("end")
+            out.append(ops)
     return out
 
 
@@ -368,6 +564,11 @@ if a.tier == "exhaustive":
              "C18: {timer due} x {later} x {fd ready} x {signal none/before/inside wait/from timer cb/from later cb} x "
              "{errno set by timer cb/later cb/not} x {1 watcher, 2, first cancels second, first cancels itself, "
              "a watcher that calls tickit_stop, a second lower-numbered signal whose watcher calls tickit_stop}")
+    bound += ("; several toplevel instances: {observer = first instance / instance 0 rebuilt / a third instance after the first was destroyed} x "
+              "{second instance never built / built before / after the signal watch} x {left alone / iterated / destroyed / destroyed and rebuilt} x "
+              "{signal before the iteration / inside the wait} x {observer's timer due} x {1, 2 watchers}"
+              if a.prop == "C18" else
+              "; two instances x watch kinds {timer, due timer, later, io} x notification flags x destruction order")
     for h in hs:
         lines += h
     with open(a.out, "w") as f:
